@@ -384,6 +384,9 @@ def explore_tree(dialect, n, d, i, b, st):
             run(p, base, f)
     text, _ = L.render(p.tokens, base)
     st.nt(text)
+    for path, nd in T.walk(p.tree):
+        # distinct observable outcomes: node kinds in their parent slots that were produced and compared
+        st.outcome((nd["__kind__"], path[-2] if len(path) >= 2 and isinstance(path[-1], int) else (path[-1] if path else None)))
     st.mx("tokens", len(p.tokens))
     # B. spans re-parse (plain layout, and one rotated layout below)
     run(p, base, base_flags, "spans")
